@@ -23,6 +23,7 @@ static struct lv *live;
 static int nlive;
 static uint64_t nstamp;
 static size_t objsz;
+static bool g_sparse;
 static uint64_t objnum;
 static const char *opname = "";
 static struct cmi_mempool mp;
@@ -39,6 +40,10 @@ static const char *sigbuf(const char *rule)
 static void fill(unsigned char *p, uint64_t stamp)
 {
     for (size_t k = 0; k + 8 <= objsz; k += 8) {
+        if (g_sparse && k >= 64 && k + 64 < objsz) {
+            k = objsz - 64 - 8; /* very large objects: only the first and the last 64 bytes are written and compared */
+            continue;
+        }
         const uint64_t v = stamp * 0x9e3779b97f4a7c15ull + k;
         memcpy(p + k, &v, 8);
     }
@@ -47,6 +52,10 @@ static void fill(unsigned char *p, uint64_t stamp)
 static bool intact(const unsigned char *p, uint64_t stamp)
 {
     for (size_t k = 0; k + 8 <= objsz; k += 8) {
+        if (g_sparse && k >= 64 && k + 64 < objsz) {
+            k = objsz - 64 - 8;
+            continue;
+        }
         const uint64_t v = stamp * 0x9e3779b97f4a7c15ull + k;
         if (memcmp(p + k, &v, 8) != 0) {
             return false;
@@ -92,7 +101,7 @@ static void do_free(int idx)
              (void *)live[idx].p, live[idx].stamp);
         return;
     }
-    memset(live[idx].p, 0xEE, objsz);
+    memset(live[idx].p, 0xEE, g_sparse ? 64 : objsz);
     cmi_mempool_free(P, live[idx].p);
     vx_transition();
     memmove(&live[idx], &live[idx + 1], (size_t)(nlive - idx - 1) * sizeof live[0]);
@@ -329,6 +338,7 @@ static void ginit(void)
 {
     objsz = (size_t)vx_opt_int("objsz", 24);
     objnum = (uint64_t)vx_opt_int("objnum", 1);
+    g_sparse = vx_opt_int("sparse", 0) != 0;
     live = malloc(sizeof(struct lv) * MAXLIVE);
     cmb_logger_flags_off(0x7FFFFFFFu);
 }
